@@ -58,8 +58,21 @@ func GemCanonical(s string) []gemSeg {
 }
 
 // GemCompare is Gem::Version#<=>.
+var gemMemo = map[string][]gemSeg{}
+
+func gemCanonicalMemo(s string) []gemSeg {
+	if p, hit := gemMemo[s]; hit {
+		return p
+	}
+	p := GemCanonical(s)
+	if len(gemMemo) < 1<<20 {
+		gemMemo[s] = p
+	}
+	return p
+}
+
 func GemCompare(a, b string) (int, string) {
-	l, r := GemCanonical(a), GemCanonical(b)
+	l, r := gemCanonicalMemo(a), gemCanonicalMemo(b)
 	zero := gemSeg{isNum: true, num: "0"}
 	for i := 0; i < len(l) || i < len(r); i++ {
 		x, y := zero, zero
